@@ -63,3 +63,12 @@ Theorem C09_ce_bounds : forall p mu c bars, ce_new XROps p (Fin mu) = Ok c -> 0 
       In mn (lastn (N.to_nat p) (firstn (S k) lows)) /\ (forall y, In y (lastn (N.to_nat p) (firstn (S k) lows)) -> mn <= y) /\
       lg <= mx /\ mn <= sh.
 Proof. exact ce_bounds. Qed.
+
+(* ---- refuted at the edge of the binary64 range (known finding K8): StandardDeviation fed the finite inputs
+        1.7e308, -1.7e308, 1.7e308 returns NaN (inf - inf in the running sum of squares), for period 1, 2 and 3 ---- *)
+From Coq Require Import Floats List.
+From TA Require Import Generic FloatInst Run.
+Theorem C09_K8_sd_overflow_nan :
+  map (fun p => map PrimFloat.is_nan (last_out [oN 0 KSd (Pm p 0 0 0); oX 0 1.7e308; oX 0 (-1.7e308); oX 0 1.7e308])) [1%N; 2%N; 3%N]
+  = [[true]; [true]; [true]].
+Proof. vm_compute. reflexivity. Qed.
